@@ -146,5 +146,6 @@ func setupRange(args ...string) (handler.Handler4, error) {
 		}
 	}
 
+	verifSeen(&p)
 	return p.Handler4, nil
 }
